@@ -45,6 +45,7 @@ func fallbackForms(c *Ctx) []fbForm {
 		return nil
 	}
 	info := p.TypesInfo
+	curFormPkg = p
 	var out []fbForm
 	for _, f := range p.Syntax {
 		for _, d := range f.Decls {
@@ -141,6 +142,12 @@ func parseForm(info *types.Info, cl *ast.CompositeLit, mnemonic, fn string) fbFo
 				if el, ok := e.(*ast.CompositeLit); ok {
 					t, _ := constStr(info, field(el, "Type"))
 					fm.Operands = append(fm.Operands, t)
+				} else if call, ok := e.(*ast.CallExpr); ok {
+					// dstOperand("r16"): a constructor whose only statement returns an Operand
+					// literal with Type: <its parameter>
+					if t, ok := operandCtorType(info, call); ok {
+						fm.Operands = append(fm.Operands, t)
+					}
 				}
 			}
 		}
@@ -406,4 +413,51 @@ func ruleT5(c *Ctx) {
 	}
 	c.analysed["T5_forms"] = len(forms)
 	c.floor("T5", 28)
+}
+
+var curFormPkg *packagesPackage
+
+func operandCtorType(info *types.Info, call *ast.CallExpr) (string, bool) {
+	fn, ok := calleeOf(info, call).(*types.Func)
+	if !ok || curFormPkg == nil {
+		return "", false
+	}
+	for _, f := range curFormPkg.Syntax {
+		for _, d := range f.Decls {
+			fd, ok := d.(*ast.FuncDecl)
+			if !ok || fd.Body == nil || fd.Recv != nil || info.Defs[fd.Name] != fn || len(fd.Body.List) != 1 {
+				continue
+			}
+			ret, ok := fd.Body.List[0].(*ast.ReturnStmt)
+			if !ok || len(ret.Results) != 1 {
+				return "", false
+			}
+			cl, ok := ast.Unparen(ret.Results[0]).(*ast.CompositeLit)
+			if !ok || !isNamedLit(info, cl, "Operand") {
+				return "", false
+			}
+			tf := field(cl, "Type")
+			if tf == nil {
+				return "", false
+			}
+			if s, ok := constStr(info, tf); ok {
+				return s, true
+			}
+			id, ok := ast.Unparen(tf).(*ast.Ident)
+			if !ok {
+				return "", false
+			}
+			i := 0
+			for _, pf := range fd.Type.Params.List {
+				for _, nm := range pf.Names {
+					if info.Defs[nm] == info.Uses[id] && i < len(call.Args) {
+						return constStr(info, call.Args[i])
+					}
+					i++
+				}
+			}
+			return "", false
+		}
+	}
+	return "", false
 }
